@@ -71,6 +71,7 @@ class SeqCheck:
     def run(self, ctx):
         seqrun = self.prepare(ctx)
         if seqrun is None: return ctx.finish('proof', {'explanation': 'build failed'})
+        self._runner = seqrun
         ok, log = ctx.check_proofs(self.propfiles)
         proof_broken = not ok
         corpus = sorted(os.path.join(common.ROOT, 'corpus', 'seq', f) for f in os.listdir(os.path.join(common.ROOT, 'corpus', 'seq'))) \
@@ -101,10 +102,36 @@ class SeqCheck:
                'explanation': self.text}
         return ctx.finish('proof', cov)
 
+    def minimise(self, ctx, d, pred=None):
+        """delta-debugging, one operation at a time: drop every operation whose removal keeps the same failure at the last step"""
+        pred = pred or self.pred
+        runner = getattr(self, '_runner', None)
+        if runner is None or d.idx < 1 or d.suite in ('arand',) or 'vmem=1' in (d.cfg or ''): return d
+        mode = 'seq'
+        cur = d.prefix()
+        trials = 0
+        def fails(ops):
+            path = os.path.join(ctx.work, 'min.hist')
+            with open(path, 'w') as f: f.write('\n'.join([d.header, d.cfg] + ops) + '\n')
+            st, dv = seqsuite.run_files(ctx, runner, 'min', [path], mode=mode)
+            for x in dv:
+                if x.idx == len(ops) - 1 and x.kind == d.kind and pred(x): return x
+            return None
+        best = d
+        i = len(cur) - 2
+        while i >= 0 and trials < 400:
+            cand = cur[:i] + cur[i + 1:]
+            trials += 1
+            x = fails(cand)
+            if x is not None: cur = cand; best = x
+            i -= 1
+        ctx.notes['minimised'] = f'{len(d.prefix())} -> {len(cur)} operations in {trials} trials'
+        return best
+
     def decide(self, ctx, divs, proof_broken, log):
         mine = [d for d in divs if d.kind == 'spec' and self.pred(d)]
         if mine:
-            d = min(mine, key=lambda d: len(d.prefix()))
+            d = self.minimise(ctx, min(mine, key=lambda d: len(d.prefix())))
             ctx.violation(f'the implementation departs from the Spec on a contract-respecting history at `{d.op()}`: expected `{d.res(d.expected)}`, got `{d.res(d.actual)}`',
                           d.replay_text())
         elif divs:
@@ -455,7 +482,7 @@ class ConcCheck(SeqCheck):
                     return
         mine = [d for d in divs if self.pred(d)]
         if mine:
-            d = min(mine, key=lambda d: len(d.prefix()))
+            d = self.minimise(ctx, min(mine, key=lambda d: len(d.prefix())))
             ctx.violation(f'at `{d.op()}` the real crate performs other atomic accesses / publishes at another point than the model the theorems are about: expected `{field(d.expected, "at")}`, got `{field(d.actual, "at")}` (result `{d.res(d.actual)}`)',
                           d.replay_text())
             return
@@ -474,7 +501,7 @@ CHECKS['C10'] = ConcCheck('C10', is_c10, CONC_TEXT)
 class VmemCheck(SeqCheck):
     def suites(self, ctx):
         if ctx.tier == 'quick': return [('vrand', ['vrand', ctx.seed, 16, 20, 50])]
-        return [('vrand', ['vrand', ctx.seed, 800, 30, 150])]
+        return [('vrand', ['vrand', ctx.seed, 200, 30, 120])]
     def prepare(self, ctx):
         rc, out = common.sh(['python3', os.path.join(common.ROOT, 'tools', 'extract_facts.py')])
         ctx.notes['extract_facts'] = out.strip().split('\n')
